@@ -394,7 +394,7 @@ func runC16(c c16Case) Verdict {
 	// ---- the call
 	h := &host{dr: dr, storer: newRecStorer()}
 	ev := h.step(0)
-	for i := 0; ev.K == "wait" && i < 2000; i++ { // handlers without a channel run in a goroutine: completion is asynchronous
+	for i := 0; ev.K == "wait" && i < 30000; i++ { // handlers without a channel run in a goroutine: completion is asynchronous
 		time.Sleep(time.Millisecond)
 		ev = h.step(0)
 	}
